@@ -137,11 +137,17 @@ impl<'c> Tr<'c> {
                     _ => self.miss(format!("binary operator in `{}`", squash(e))),
                 }
             }
+            Expr::Try(t) if place_name(&t.expr).is_some() => self.expr(&t.expr),
             Expr::Path(_) | Expr::Field(_) => match place_name(e) {
                 Some(n) => n,
                 None => {
                     let s = squash(e);
-                    match self.cfg.calls.iter().find(|(k, _)| *k == s) {
+                    if let Some((_, g)) = self.cfg.calls.iter().find(|(k, _)| *k == s) {
+                        return (*g).to_string();
+                    }
+                    // `Enum::Variant` used as a value
+                    let last = s.rsplit("::").next().unwrap_or("").to_string();
+                    match self.cfg.variants.iter().find(|(k, _)| *k == last) {
                         Some((_, g)) => (*g).to_string(),
                         None => self.miss(format!("path `{s}`")),
                     }
@@ -169,6 +175,36 @@ impl<'c> Tr<'c> {
                     Some(p) => format!("({p} {})", args.join(" ")),
                     None => self.miss(format!("call of `{f}`")),
                 }
+            }
+            Expr::Match(m) if m.arms.iter().any(|a| some_str_lit(&a.pat).is_some()) => {
+                // `match x { Some("a") => A, Some("b") => B, Some(_) | None => D }` on an Option<&str>: a chain of
+                // comparisons (byte strings are compared with beq)
+                let scrut = self.expr(&m.expr);
+                let mut chain: Vec<(String, String)> = vec![];
+                let mut dflt_some: Option<String> = None;
+                let mut dflt_none: Option<String> = None;
+                for a in &m.arms {
+                    let body = self.expr(&a.body);
+                    if let Some(lit) = some_str_lit(&a.pat) {
+                        chain.push((bytes_lit(&lit), body));
+                    } else {
+                        let ps = squash(&a.pat);
+                        if ps.contains("Some(_)") || ps == "_" {
+                            dflt_some = Some(body.clone());
+                        }
+                        if ps.contains("None") || ps == "_" {
+                            dflt_none = Some(body.clone());
+                        }
+                    }
+                }
+                let (Some(ds), Some(dn)) = (dflt_some, dflt_none) else {
+                    return self.miss(format!("string match without defaults `{}`", squash(&m.expr)));
+                };
+                let mut t = ds;
+                for (lit, body) in chain.into_iter().rev() {
+                    t = format!("(if beq s_ {lit} then {body} else {t})");
+                }
+                format!("(match {scrut} with Some s_ => {t} | None => {dn} end)")
             }
             Expr::Match(m) => {
                 // a match used as a value: every arm is an expression
@@ -297,7 +333,7 @@ impl<'c> Tr<'c> {
         };
         let con = match self.cfg.variants.iter().find(|(k, _)| *k == name) {
             Some((_, g)) => (*g).to_string(),
-            None if name == "_" => name,
+            None if name == "_" || name == "None" || name == "Some" => name,
             None => self.miss(format!("match pattern `{name}`")),
         };
         if binders.is_empty() { con } else { format!("{con} {}", binders.join(" ")) }
@@ -474,6 +510,163 @@ impl<'c> Tr<'c> {
             Stmt::Expr(e, None) if rest.is_empty() => self.mvalue(e),
             other => self.miss(format!("statement `{}`", squash(other))),
         }
+    }
+
+    // ---------------------------------------------------------------- result monad with local mutable state
+    /// Statements of a `Result`-returning function that also mutates locals: a computation `M (tuple of ret)`.
+    /// `on_continue`: inside a loop body, what `continue` yields (the loop's state tuple).
+    pub fn mst(&mut self, stmts: &[Stmt], scope: &mut Vec<String>, ret: &[String], on_continue: Option<&str>) -> String {
+        let Some((first, rest)) = stmts.split_first() else {
+            return format!("ret {}", tuple(ret));
+        };
+        match first {
+            Stmt::Item(_) => self.mst(rest, scope, ret, on_continue),
+            Stmt::Local(l) => {
+                if crate::util::cfg_excludes_unix(&l.attrs) {
+                    return self.mst(rest, scope, ret, on_continue);
+                }
+                let (Pat::Ident(pi), Some(init)) = (&l.pat, &l.init) else {
+                    return self.miss(format!("let `{}`", squash(&l.pat)));
+                };
+                let name = sanitize(&pi.ident.to_string());
+                // `let x = { use ..; EXPR };`
+                let mut e: &Expr = &init.expr;
+                if let Expr::Block(b) = e {
+                    if let Some(Stmt::Expr(last, None)) = b.block.stmts.last() {
+                        if b.block.stmts[..b.block.stmts.len() - 1].iter().all(|s| matches!(s, Stmt::Item(_))) {
+                            e = last;
+                        }
+                    }
+                }
+                let head = match e {
+                    Expr::Try(t) if place_name(&t.expr).is_none() => format!("{name} <- {} ;;", self.mexpr(&t.expr)),
+                    // `f(g(..)?)`: the fallible argument is bound first
+                    Expr::Call(c) if c.args.len() == 1 && matches!(&c.args[0], Expr::Try(t) if place_name(&t.expr).is_none()) => {
+                        let Expr::Try(t) = &c.args[0] else { unreachable!() };
+                        let m = self.mexpr(&t.expr);
+                        self.fresh += 1;
+                        let tmp = format!("tmp_{}", self.fresh);
+                        let f = squash(&c.func);
+                        let pure = match self.cfg.calls.iter().find(|(k, _)| *k == f) {
+                            Some((_, g)) => fill(g, "", &[tmp.clone()]),
+                            None => self.miss(format!("call of `{f}`")),
+                        };
+                        format!("{tmp} <- {m} ;;\nlet {name} := {pure} in")
+                    }
+                    other => format!("let {name} := {} in", self.expr(other)),
+                };
+                scope.push(name);
+                let k = self.mst(rest, scope, ret, on_continue);
+                scope.pop();
+                format!("{head}\n{k}")
+            }
+            Stmt::Expr(Expr::Continue(_), _) => match on_continue {
+                Some(c) => c.to_string(),
+                None => self.miss("continue outside a loop".to_string()),
+            },
+            // mutating call on a local in scope
+            Stmt::Expr(Expr::MethodCall(m), Some(_)) if self.cfg.mutators.iter().any(|(k, _)| *k == m.method.to_string()) => {
+                let tpl = self.cfg.mutators.iter().find(|(k, _)| *k == m.method.to_string()).map(|(_, t)| *t).unwrap();
+                let Some(p) = place_name(&m.receiver).filter(|p| scope.contains(p)) else {
+                    return self.miss(format!("statement `{}`", squash(m)));
+                };
+                let args: Vec<String> = m.args.iter().map(|a| self.expr(a)).collect();
+                let rhs = fill(tpl, &p, &args);
+                let k = self.mst(rest, scope, ret, on_continue);
+                format!("let {p} := {rhs} in\n{k}")
+            }
+            Stmt::Expr(Expr::ForLoop(fl), _) => {
+                let w = self.writes(&Expr::ForLoop(fl.clone()), scope);
+                let wt = tuple(&w);
+                let iter_bind = match &*fl.expr {
+                    Expr::Try(t) => format!("it_ <- {} ;;", self.mexpr(&t.expr)),
+                    other => format!("let it_ := {} in", self.expr(other)),
+                };
+                let mut ids = vec![];
+                pat_idents(&fl.pat, &mut ids);
+                for id in &ids {
+                    scope.push(id.clone());
+                }
+                let cont = format!("ret {wt}");
+                let body = self.mst(&fl.body.stmts, scope, &w, Some(&cont));
+                for _ in &ids {
+                    scope.pop();
+                }
+                let item = pat_term(&fl.pat);
+                let k = self.mst(rest, scope, ret, on_continue);
+                let binder = if w.len() == 1 { w[0].clone() } else { format!("'{wt}") };
+                format!("{iter_bind}\n{binder} <- foldM (fun acc_ item_ =>\nlet '({wt}, {item}) := (acc_, item_) in\n{body}) it_ {wt} ;;\n{k}")
+            }
+            // `if c { continue; }` / `if c { return ..; }` guards, and ordinary conditionals
+            Stmt::Expr(Expr::If(i), _) if !matches!(&*i.cond, Expr::Let(_)) => {
+                let reads = self.reads_state(&i.cond);
+                let c = self.expr(&i.cond);
+                let exits = matches!(i.then_branch.stmts.last(), Some(Stmt::Expr(Expr::Continue(_) | Expr::Return(_), _)));
+                let w = self.writes(&Expr::If(i.clone()), scope);
+                let term = if exits && i.else_branch.is_none() {
+                    let t = self.mst(&i.then_branch.stmts, scope, ret, on_continue);
+                    let k = self.mst(rest, scope, ret, on_continue);
+                    format!("if {c} then\n{t}\nelse\n{k}")
+                } else {
+                    let t = self.mst(&i.then_branch.stmts, scope, &w, on_continue);
+                    let f = match &i.else_branch {
+                        None => format!("ret {}", tuple(&w)),
+                        Some((_, eb)) => match &**eb {
+                            Expr::Block(b) => self.mst(&b.block.stmts, scope, &w, on_continue),
+                            other => self.miss(format!("else branch `{}`", squash(other))),
+                        },
+                    };
+                    let k = self.mst(rest, scope, ret, on_continue);
+                    let binder = match w.len() {
+                        0 => "_".to_string(),
+                        1 => w[0].clone(),
+                        _ => format!("'{}", tuple(&w)),
+                    };
+                    format!("{binder} <- (if {c} then\n{t}\nelse\n{f}) ;;\n{k}")
+                };
+                if reads { format!("(fun st_ => ({term}) st_)") } else { term }
+            }
+            // `if let Some(x) = e { .. }` (no else)
+            Stmt::Expr(Expr::If(i), _) => {
+                let Expr::Let(l) = &*i.cond else { unreachable!() };
+                let (Some(x), true) = (some_binding(&l.pat), i.else_branch.is_none()) else {
+                    return self.miss(format!("if-let `{}`", squash(&l.pat)));
+                };
+                let w = self.writes(&Expr::If(i.clone()), scope);
+                let scrut = self.expr(&l.expr);
+                scope.push(x.clone());
+                let t = self.mst(&i.then_branch.stmts, scope, &w, on_continue);
+                scope.pop();
+                let k = self.mst(rest, scope, ret, on_continue);
+                let binder = match w.len() {
+                    0 => "_".to_string(),
+                    1 => w[0].clone(),
+                    _ => format!("'{}", tuple(&w)),
+                };
+                format!("{binder} <- (match {scrut} with\n| Some {x} =>\n{t}\n| None => ret {}\nend) ;;\n{k}", tuple(&w))
+            }
+            Stmt::Expr(Expr::Try(t), Some(_)) => {
+                let m = self.mexpr(&t.expr);
+                let k = self.mst(rest, scope, ret, on_continue);
+                format!("{m} ;;;\n{k}")
+            }
+            Stmt::Expr(Expr::Return(r), _) => match &r.expr {
+                Some(v) => self.mst_value(v),
+                None => self.miss("bare return".to_string()),
+            },
+            Stmt::Expr(e, None) if rest.is_empty() => self.mst_value(e),
+            other => self.miss(format!("statement `{}`", squash(other))),
+        }
+    }
+
+    /// `Ok(state_var)` / `Ok(expr)` / a fallible call at the end of a stateful function
+    fn mst_value(&mut self, e: &Expr) -> String {
+        if let Expr::Call(c) = e {
+            if squash(&c.func) == "Ok" && c.args.len() == 1 {
+                return format!("ret {}", self.expr(&c.args[0]));
+            }
+        }
+        self.mexpr(e)
     }
 
     /// does the (pure-looking) expression read the file system?  (its translation mentions the state variable)
@@ -832,6 +1025,20 @@ fn some_binding(p: &Pat) -> Option<String> {
         if ts.path.segments.last().is_some_and(|s| s.ident == "Some") && ts.elems.len() == 1 {
             if let Pat::Ident(i) = &ts.elems[0] {
                 return Some(sanitize(&i.ident.to_string()));
+            }
+        }
+    }
+    None
+}
+
+/// `Some("literal")` -> the literal
+fn some_str_lit(p: &Pat) -> Option<String> {
+    if let Pat::TupleStruct(ts) = p {
+        if ts.path.segments.last().is_some_and(|s| s.ident == "Some") && ts.elems.len() == 1 {
+            if let Pat::Lit(l) = &ts.elems[0] {
+                if let syn::Lit::Str(st) = &l.lit {
+                    return Some(st.value());
+                }
             }
         }
     }
